@@ -567,6 +567,10 @@ else:
         # Key: class_id -> type_hints dict
         __hints_cache__: ClassVar[Dict[int, Dict[str, Any]]] = {}
 
+        # Unknown members named like an attribute of the class (model_dump, json, ...)
+        # are kept here per instance so that they cannot shadow that attribute
+        __shadowed_extra__: ClassVar[Optional[Dict[str, Any]]] = None
+
         def __init_subclass__(cls, **kwargs):
             super().__init_subclass__(**kwargs)
 
@@ -621,6 +625,15 @@ else:
 
             # Validate types
             self._validate_types(values)
+
+            # Extra members that would shadow a method or class attribute are set aside
+            shadowed = {
+                key: values.pop(key)
+                for key in list(processed_data)
+                if hasattr(type(self), key)
+            }
+            if shadowed:
+                values["__shadowed_extra__"] = shadowed
 
             # Set attributes
             object.__setattr__(self, "__dict__", values)
@@ -782,7 +795,10 @@ else:
             """Serialize to dictionary."""
             result = {}
 
-            for key, value in self.__dict__.items():
+            members = dict(self.__dict__)
+            members.update(members.pop("__shadowed_extra__", None) or {})
+
+            for key, value in members.items():
                 if include and key not in include:
                     continue
                 if exclude and self._should_exclude(key, exclude):
